@@ -131,6 +131,7 @@ SPEC = {
         "define_undef_scoping", "macro_names_always_distinct", "api_defines_equal_file_defines",
         "expand_refines_spec_partial", "expand_refines_spec", "expand_refines_spec_decided", "tame_class_is_decided",
         "expand_refines_spec_with_paste", "expand_refines_spec_with_paste_decided",
+        "tame_class_is_part_of_class_with_paste",
         "object_like_refines_spec",
         "trailing_function_name_is_invoked", "paste_is_single_token", "paste_matches_lexer",
         "parse_yields_wellformed_macro", "directive_takes_effect_from_its_line",
